@@ -417,6 +417,11 @@ def run_case(case):
             x = np.cumsum(rng.uniform(0.01, 2, size=npt)) + rng.normal() * 10
         else:
             x = np.sort(rng.choice(np.arange(-300, 300), size=npt, replace=False)).astype("f8")
+        # the abscissae on every scale: a table is as valid in units of 1e-12 as in units of 1e+12 (absolute
+        # tolerances inside the routine would show up here); the table stays centred near 0 so that u - x[j] is exact
+        if rng.random() < .4:
+            sc = 10.0 ** float(rng.integers(-14, 15))
+            x = (x - x[0]) * sc
         v = rng.normal(size=npt) * 10.0 ** rng.integers(-2, 3)
         span = x[-1] - x[0]
         m = int(rng.integers(1, 30))
@@ -460,22 +465,34 @@ def run_case(case):
         A = rng.normal(size=(d, d)) * 10.0 ** rng.uniform(-3, 3, size=(d, 1))
         C = A @ A.T if rng.random() < .5 else (A + A.T)
         C[np.diag_indices(d)] = np.abs(np.diag(C)) + 10.0 ** rng.uniform(-6, 3)
-        cor, e1 = probe.attempt(st.cov2cor, C)
+        form = int(rng.integers(0, 6))
+        if form in (0, 1):
+            # integer-valued symmetric positive-diagonal matrices (count-like), given with an integer or float32 dtype
+            B = rng.integers(-9, 10, size=(d, d))
+            C = (B @ B.T + np.diag(rng.integers(1, 50, size=d))).astype(["i8", "i4", "f4"][int(rng.integers(0, 3))])
+        elif form == 2:
+            C = np.asfortranarray(C)
+        elif form == 3:
+            C = C.astype(">f8")
+        Cin = C
+        C = np.asarray(C, dtype="f8")
+        cor, e1 = probe.attempt(st.cov2cor, Cin)
         wit = {"C": C}
         if e1 is not None:
             COL.violation("C18.covcor", "cov2cor raised %r" % e1, wit)
             return
         dg = np.sqrt(np.diag(C))
         expcor = C / np.outer(dg, dg)
-        if not close(cor, expcor, 1.0) or not close(np.diag(cor), np.ones(d), 0, 1e-14):
+        single = Cin.dtype == np.float32          # single-precision input: single-precision agreement
+        if not close(cor, expcor, 1.0, 1e-6 if single else 1e-12) or not close(np.diag(cor), np.ones(d), 0, 1e-6 if single else 1e-14):
             COL.violation("C18.covcor", "cov2cor differs from cov[i,j]/sqrt(cov[i,i] cov[j,j])", wit)
             return
         back, e2 = probe.attempt(st.cor2cov, cor, dg)
         if e2 is not None:
             COL.violation("C18.covcor", "cor2cov raised %r" % e2, wit)
             return
-        if np.all(np.abs(back - C) <= 1e-12 * np.outer(dg, dg)):
-            COL.ok("C18.covcor", ("covcor", d, bool((C < 0).any())))
+        if np.all(np.abs(back - C) <= (1e-6 if Cin.dtype == np.float32 else 1e-12) * np.maximum(np.outer(dg, dg), np.abs(C))):
+            COL.ok("C18.covcor", ("covcor", d, bool((C < 0).any()), str(Cin.dtype), bool(Cin.flags.c_contiguous)))
         else:
             wit["back"] = back
             COL.violation("C18.covcor", "cor2cov(cov2cor(C), sqrt(diag C)) != C", wit)
